@@ -56,6 +56,7 @@ pub fn exec_array(scn: &Scenario, prop: Prop) -> RunResult {
         ElemTy::OptI32 => exec_nan::<Option<i32>>(scn, prop),
         ElemTy::OptU8 => exec_nan::<Option<u8>>(scn, prop),
         ElemTy::Keyed => exec_ord::<Keyed>(scn, prop),
+        ElemTy::OptN64 => exec_nan::<Option<N64>>(scn, prop),
     }
 }
 
@@ -74,6 +75,9 @@ pub fn generate(prop: Prop, seed: u64, idx: u64, tier: Tier) -> AnyScn {
 pub struct Found {
     pub run: u64,
     pub violation: Violation,
+    /// runs the same worker thread executed earlier in this chunk (in order):
+    /// what a library with thread-local state has seen before this run
+    pub prior: Vec<u64>,
 }
 
 pub struct BatchOutcome {
@@ -88,7 +92,7 @@ pub struct BatchOutcome {
 }
 
 pub const CHUNK: u64 = 4096;
-pub const WATCHDOG_SECS: u64 = 10;
+pub const WATCHDOG_SECS: u64 = 60;
 
 /// slots the crash handler and the watchdog read: current run index + 1 per worker (0 = idle)
 pub static CURRENT: [AtomicU64; 64] = {
@@ -137,6 +141,7 @@ pub fn run_batch(prop: Prop, tier: Tier, seed: u64, runs: u64, threads: usize, m
                         let mut fs = vec![];
                         let mut rc = 0u64;
                         let mut mm = None;
+                        let mut mine: Vec<u64> = vec![];
                         loop {
                             let i = next.fetch_add(1, Ordering::Relaxed);
                             if i >= end {
@@ -162,8 +167,9 @@ pub fn run_batch(prop: Prop, tier: Tier, seed: u64, runs: u64, threads: usize, m
                             if let Some(v) = r.violations.into_iter().next() {
                                 // told to the supervisor at once, in case the process dies before the chunk ends
                                 eprintln!("FOUND run={} class={}", i, v.class);
-                                fs.push(Found { run: i, violation: v });
+                                fs.push(Found { run: i, violation: v, prior: mine.clone() });
                             }
+                            mine.push(i);
                         }
                         results.lock().unwrap().push((bs, fs, rc, mm));
                     });
@@ -178,7 +184,7 @@ pub fn run_batch(prop: Prop, tier: Tier, seed: u64, runs: u64, threads: usize, m
                 }
             }
             start = end;
-            if !found.is_empty() || mismatch.is_some() {
+            if !found.is_empty() {
                 stopped_early = start < runs;
                 break;
             }
